@@ -12,862 +12,666 @@ Definition show_fres (r : fres) : string :=
   end.
 Definition check (rs : list rune) : string := digest (show_fres (format_res rs)).
 Definition full (rs : list rune) : string := show_fres (format_res rs).
-Eval vm_compute in ("<<<M1758>>>" ++ check (runes_of_ascii "
-
-  root
-
-    packet u
-
-{ 
-char[
-007
-]
-    x_y_z `two words`
-	,int16
-    u8x 
-@calculatedFrom(	""packet""
-
-    ) 
-// @lengthOf(
-	  ,
-
-float64
-falsey	@calculatedFrom( ""\" ++ [233]%N ++ runes_of_ascii """
-    )
-	`u8 x,`	,	trueish
-@calculatedFrom(""" ++ [233]%N ++ runes_of_ascii "t" ++ [233]%N ++ runes_of_ascii """  )  `tab	here`	,
-    @tag( 1
-)
-
-    repeat
-
-char[ 4294967296
-]
-// " ++ [128512]%N ++ runes_of_ascii " emoji
-	u, match
-
-// " ++ [27880; 37322]%N ++ runes_of_ascii "
-  i8i8
-//
-
-as	// " ++ [128512]%N ++ runes_of_ascii " emoji
-  o  {[ ""a\\"" ]	: 
-matchKey 
-, [ 0123456789
-	//x
-
-,	""x y""
-    ,0
-    , 
-      /// triple
-	/// triple
-  00
-	, 
-""a	b""
-,
-    ""{,}""	, 	 // a // b
-
-	""{,}"" ,  007	]
-	: 
-u8x
-,
-	255 : u128,
-    [
-    """ ++ [28040; 24687]%N ++ runes_of_ascii """  ,  0123456789
-
-    , 65535
-
+Eval vm_compute in ("<<<M339>>>" ++ check (runes_of_ascii "// @lengthOf(
+packet A { repeat rootA
+{ repeat o , BodyLength i64_ `// not a comment` ,  repeatCount @calculatedFrom(""it's"" ) , }
+    // @lengthOf(
     ,
-    // a // b
-	""\n"" ] : _x
-,
-7 :falsey
-
-    } ,@leftPad	()// " ++ [128512]%N ++ runes_of_ascii " emoji
-    	charz
-
-@lengthOf(  A )
-	,	// `tick` ""quote"" 'q'
-    }
-
-root  packet 
-stringy { 
-repeat MetaDataX {
-
-float32 
-T , string
-
-    x_y_z
-
-    `a\`  ,  repeat
-
-    _x
-
-zchar	`u8 x,` ,
-},} packet
-
-    Foo {@lengthOf(
-roots)
-	calculatedFrom a1
-	, zchar[0123456789 ]_x  ,
-        // @lengthOf(
-    // trailing space 
-  match  //
-    roots as MetaDataX  // c
-	{/// triple
-	  42	: _x
-,3  // a // b
-:
-
-    msg_type
-7
-
-:
-    a1  , 
-"""" :
-
-i8i8
-	,  //x
-	[
-
-""" ++ [233]%N ++ runes_of_ascii "t" ++ [233]%N ++ runes_of_ascii """
-]	:i8i8
-,
-	00:	leftPad , },
-    @calculatedFrom( 	 // @lengthOf(
-	"""")  char[
-	00	// c
-]
-Foo  @lengthOf(
-
-    uint8x
-	) 
-,
-
-f32
-chars
-	, }
-    packet  metadata
-    //	t
-		{
-    } 
-MetaData i64_  // packet A { u8 x, }
-
-{
-
-    lengthOf
-	options1 ,
-	    // @lengthOf(
-  //x
-
-a1	A , x
-
-Header , 
-}
-
-")).
-Eval vm_compute in ("<<<M1507>>>" ++ check (runes_of_ascii "
-
-  // top
-    packet	// c0a
-		// c0b
-
-A 
-{ 	 // c2
-u8  // c3a
-	// c3b
-
-  a
-,	// c5
-	  } 	 // c6a
-  // c6b
-	packet// c7a
-	// c7b
-
-B
-	{ 
-    // c9
-  	u16  b  // c11
-,
-    }  // c13a
-  // c13b
-    packet  // c14
-	C 
-    // c15
-{
-// c16
-      u32 
-	    // c17
-	c 	 // c18
-	  , 	 // c19a
-	// c19b
-} 
-
-// c20
-    root	packet 	 // c22a
-
-// c22b
-	M	// c23
-  {  u16  Kc 
-        // c26
-
-  , 
-
-// c27
-u16 	 // c28a
-	  // c28b
-    Kb,  // c30
-	u16 Ka
-// c32
-    	,
-	match// c34a
-
-// c34b
-  Kc 	 // c35
-	as X
-    // c37
-	  {
-    // c38
-    9 	 // c39
-
-:
-        // c40
-
-A
-
-// c41
-  	,
-10	:
-
-// c44
-  B 
-    // c45
-, 
-    // c46
-}
-    ,
-	match 
-// c49
-	Kb// c50
-as	// c51a
-    // c51b
-Y// c52
-{
-    2 // c54a
-	// c54b
-  : 
-
-    // c55
-    	C  ,// c57
-      1 // c58
-  	:
-	A ,  // c61a
-  // c61b
-		} // c62
-,// c63a
-		// c63b
-	match 
-
-// c64
-    	Ka as  // c66
-Z  // c67
-    { 
-        // c68
-		1 // c69a
-// c69b
-	:
-
-B // c71a
-    // c71b
-, 	 // c72
-	} 	 // c73a
-    	// c73b
-	, // c74
-	A // c75a
-
-	// c75b
-    ,  // c76
-  B 
-        // c77
-  , 
-
-    // c78
-  	C 
-,// c80
-    	}
-")).
-Eval vm_compute in ("<<<M1327>>>" ++ check (runes_of_ascii "// top
-options
-    // c0
-{ // c1a
-  // c1b
-LittleEndian
-    // c2
-= true // c4a
-  // c4b
-;
-    // c5
-StringPrefixLenType =
-    // c7
-u16 // c8
-; // c9a
-  // c9b
-FixedStringPadChar // c10
-= // c11
-' '
-    // c12
-;
-    // c13
-} // c14
-packet // c15a
-  // c15b
-Logon { // c17a
-  // c17b
-@leftPad ( '0' ) // c21
-char[ // c22a
-  // c22b
-10 // c23
-] // c24
-tag7 // c25a
-  // c25b
-,
-    // c26
-} // c27a
-  // c27b
-root packet
-    // c29
-Ack // c30a
-  // c30b
-{ int32 // c32
-Px , // c34
-uint16
-    // c35
-count // c36
-,
-    // c37
-string // c38a
-  // c38b
-Qty
-    // c39
-, // c40a
-  // c40b
-string // c41a
-  // c41b
-OrderId // c42
-, string Flags // c45a
-  // c45b
-,
-    // c46
-u8 // c47a
-  // c47b
-x // c48a
-  // c48b
-, // c49a
-  // c49b
-match // c50
-x // c51
-as
-    // c52
-Body
-    // c53
-{ // c54
-[ // c55a
-  // c55b
-58 // c56
-, // c57
-169 // c58a
-  // c58b
-] // c59
-: Logon , // c62a
-  // c62b
-} // c63
-,
-    // c64
-}
-    // c65
-")).
-Eval vm_compute in ("<<<M1815>>>" ++ check (runes_of_ascii "root packet asx {
-    leftPad {
-        u128 @calculatedFrom(""1""),//x
-    },
-    lengthOf @calculatedFrom(""" ++ [128512]%N ++ runes_of_ascii """) `a\`,
-    i64 Packet @lengthOf(calculatedFrom),
-    @calculatedFrom(""" ++ [233]%N ++ runes_of_ascii "t" ++ [233]%N ++ runes_of_ascii """)
-    stringy a1 `doc`,
-    @rightPad()
-    // c
-    a1 `a\`,
-    char Header @lengthOf(x) `say ""hi""`,
-    uint8x Z9_ `tab	here`,
-}
-
-options {
-    calculatedFrom = 0
-}
-
-packet metadata {
-    @leftPad('\x00')
-    f32 pack,
-    @tag(65535)
-    u32 uint8x @lengthOf(repeatCount) ``,
-    MetaDataX {
-        repeat options1,
-        match matchKey as len {
-            """ ++ [128512]%N ++ runes_of_ascii """ : u8x,
-            1 : zchar,
-            /// triple
-            [""a\\"", ""x y""] : charz,
-            0 : x_y_z,
-            [4294967296] : asx,
-            [10, ""a\""b"", ""\n"", ""\" ++ [233]%N ++ runes_of_ascii """] : _x,
-        },
-        uint8 metadata @lengthOf(float),
-        zchar[255] i8i8,
-    },
-}
-
-root packet f32a {
-}")).
-Eval vm_compute in ("<<<M1773>>>" ++ check (runes_of_ascii "options {
-    StringPrefixLenType = u16;
-    ArrayPrefixLenType = u32;
-    FixedStringPadFromLeft = true;
-    FixedStringPadChar = '0';
-}
-
-packet Cancel {
-}
-
-packet Party {
-}
-
-packet Logon {
-}
-
-packet Ack {
-}
-
-packet Logout {
-    repeat InSym87 {
-        InClordid94 {
-            string clOrdID,
-        },
-        string Px,
-        i16 Qty,
-        repeat InCount71 {
-            repeat Cancel,
-            uint16 Tail,
-            char[2] x,
-            repeat string Ref,
-        },
-        Cancel,
-    },
-}
-
-root packet Order {
-    repeat string tag7,
-    @leftPad(' ')
-    char[3] Px,
-    u8 Qty,
-    match Qty as Body {
-        [28, 62] : Logon,
-        148 : Ack,
-        88 : Party,
-        184 : Cancel,
-    },
-    u16 Note @calculatedFrom(""CRC32""),
-}")).
-Eval vm_compute in ("<<<M1486>>>" ++ check (runes_of_ascii "
-
-  // top
-
-root	// c0
-packet  // c1
-	_x
-	    // c2
-{
-    match 
-    // c4
-  Foo// c5
-as  // c6a
-
-// c6b
-    Z9_
-    { 
-	// c8
-		""a	b""	// c9a
-    // c9b
-	:	// c10
-	Pad	// c11
-	  ,  
-      // c12
-	},	// c14
-repeat	// c15a
-
-// c15b
-		x`line1
-line2`
-        // c17
-	, // c18
-    @rightPad // c19a
-// c19b
-	(
-    // c20
-
-  ' '	// c21
-      )  // c22
-  @calculatedFrom(
-
-    ""a\\""  
-  // c24
-	) 	 // c25a
-// c25b
-    metadata	MetaDataX  
-      // c27
-
-	,
-    @tag( 
-    // c29
-      0
-) // c31
-	Logon	int 
-	// c33
-	  ``
-
-    // c34
-    ,
-	    // c35
-		}  // c36
-    	options// c37
-
-{  
-      // c38
-	  T  // c39
-=// c40a
-      // c40b
-
-'\x00'
-	}  // c42a
-    // c42b
- 
-")).
-Eval vm_compute in ("<<<M78>>>" ++ check (runes_of_ascii "options {
-Header	=u32; } options {
-i8i8	=
-    f64 ; body
-    =  zchar[
-// " ++ [128512]%N ++ runes_of_ascii " emoji
-/// triple
-00//
-] ; }
-    //
-    MetaData BodyLength  { // trailing space 
-}// " ++ [27880; 37322]%N ++ runes_of_ascii "
-options
-{ Logon= u64 As =
-    true i64_
-= '\x00' ;
-} root packet asx {
-@tag(
-// `tick` ""quote"" 'q'
-//	t
-4294967296
-    )
-    roots @lengthOf( A ) ,repeat uint8 u128
-    , int32 i64_  ,
-    u8 u `` ,
-@lengthOf(
-// c
-// c
-len ) uint64
-    //x
-    matchKey ,	match rootA
-    as stringy {
-1 : string_, 7 : charz , 255 : u128, [ // trailing space 
-0
-,0123456789 ,1,007  ]: len
-    , 10
-    :trueish } ,
-@rightPad	()
-    char[ 7] int //
-@lengthOf(
-x ) `two words`
-, }")).
-Eval vm_compute in ("<<<M1540>>>" ++ check (runes_of_ascii "packet pack {
-    u8 a1 `say ""hi""`,
-    @leftPad('\x00')
-    uint8 Logon `
-    `,
-    char[] lengthOf `" ++ [233]%N ++ runes_of_ascii "`,
-    //
-    //x
-    repeat char[] As,
-    @lengthOf(string_)
-    @calculatedFrom(""a\\"")
-    repeat u8x o,
-    char string_ @calculatedFrom(""a\""b"") `tab	here`,
-    repeat As {
-        char[0] i64_ @lengthOf(T) `" ++ [233]%N ++ runes_of_ascii "`,
-        char[4294967296] T @calculatedFrom(""\" ++ [233]%N ++ runes_of_ascii """),
-        trueish,
-        repeat int {
-            string Logon @calculatedFrom(""1""),
-            metadata,
-            uint32 Z9_,// " ++ [27880; 37322]%N ++ runes_of_ascii "
-        },
-    },
-    @tag(00)
-    //	t
-    i16 a1 `a\`,
-}")).
-Eval vm_compute in ("<<<M1743>>>" ++ check (runes_of_ascii "// top
-packet A {
-    // c2
-    u8 a,// c5
-}// c6a
-
-// c6b
-packet B {
-    // c9
-    u16 b,
-}// c13a
-
-// c13b
-packet C {
-    // c16
-    u32 c,// c19a
-}
-
-// c20
-root packet M {
-    u16 Kc,
-    // c27
-    u16 Kb,// c30
-    u16 Ka,
-    match Kc as X {
-        // c38
-        9 : A,
-        10 : B,
-    },
-    match Kb as Y {
-        2 : C,
-        // c57
-        1 : A,
-    },// c63a
-    // c63b
-    match Ka as Z {
-        // c68
-        1 : B,
-    },// c74
-    A,// c76
-    B,
-    // c78
-    C,// c80
-}")).
-Eval vm_compute in ("<<<M48>>>" ++ check (runes_of_ascii "root	packet Logon { @calculatedFrom( """" ) @lengthOf( int ) @tag( 3
-) match _x
-as // a // b
-i64_ { 10:asx
-// `tick` ""quote"" 'q'
-/// triple
-""" ++ [128512]%N ++ runes_of_ascii """ : crc ,[ 0
-,
-007
-] : float  ,// trailing space 
-}
-    , repeat //	t
-uint16
-leftPad  ,
-    }
-    // " ++ [27880; 37322]%N ++ runes_of_ascii "
-    packet charz
-{  } MetaData
-int {
-//
-// trailing space 
-zchar[ 4294967296 ]matchKey
-,
-asx rootA
-    `doc`
-, Foo string_ `// not a comment`
-,
-    char[]u8x , // `tick` ""quote"" 'q'
-roots
-float , }
-")).
-Eval vm_compute in ("<<<M1575>>>" ++ check (runes_of_ascii "MetaData BodyLength {
-    zchar[65535] As `crlf
-        line`,
-    u16 charz,
-    body len,
-    zchar msg_type,
-    uint64 metadata,
-}
-
-root packet matchKey {
-    repeat i8i8 `{ , }`,
-}
-
-MetaData a1 {
-    i8i8 Pad `it's`,
-    int64 roots `doc`,
-    Foo BodyLength `u8 x,`,
-}
-
-packet _x {
-    lengthOf {
-        pack `" ++ [28040; 24687; 31867; 22411]%N ++ runes_of_ascii "`,
-        string_,
-        repeat rootA len,
-        zchar[1] u8x,
-    },
-}")).
-Eval vm_compute in ("<<<M1783>>>" ++ check (runes_of_ascii "
-packet
-
-    tag
-    { 
-}
-packet
-
-    falsey
-{
-	string
-    charz	@lengthOf(zchar)
-
-    , 
-string // trailing space 
-    u 
-@calculatedFrom(
-""" ++ [233]%N ++ runes_of_ascii "t" ++ [233]%N ++ runes_of_ascii """
-	)
-`// not a comment` ,@leftPad
-    ('0' )
-char[]
-leftPad@calculatedFrom(
-""a	b""
-	) `// not a comment`
-,
-
-    @calculatedFrom(
-
-    ""`tick`"")
-
-    @lengthOf(
-
-roots) repeat MetaDataX
-
-,
-
-    }
-")).
-Eval vm_compute in ("<<<M1476>>>" ++ check (runes_of_ascii "packet a1 {
-    @leftPad()
-    float @lengthOf(uint8x),
-}
-
-packet Logon {
-    char Logon @calculatedFrom(""a\\""),
-    T stringy,
-    //
-    // c
-    repeat uint8 stringy `two words`,
-}
-
-MetaData charz {
-    u tag `
-        `,
-    a1 falsey,
-    Z9_ matchKey,
-    f64 lengthOf `a\`,
-    f32a roots ``,
-    float64 x_y_z,
-}")).
-Eval vm_compute in ("<<<M1615>>>" ++ check (runes_of_ascii "  // top
-  packet // c0a
-  // c0b
-  orderItem// c1a
-	// c1b
-		{
-    u8 	 // c3
-    a// c4
-  , 	 // c5a
-	// c5b
-	}
-// c6
-root
-	packet	// c8a
-      // c8b
-    newOrder  // c9a
-	// c9b
-      {
-orderItem// c11
-      , u8
-    // c13
-
-  x	// c14a
-    	// c14b
-,
-    // c15
-  } 	 // c16")).
-Eval vm_compute in ("<<<M80>>>" ++ check (runes_of_ascii "packet
-    len { // trailing space 
-repeat zchar f32a `// not a comment` , @tag( 255 )repeat  Pad { x T
-, } , @calculatedFrom(
-""{,}"") repeat
-    // a // b
-    leftPad { u64 u8x `tab	here` ,o Packet
-    ,char[] chars , } , @tag( 3 )float64
-    i8i8 , }
-")).
-Eval vm_compute in ("<<<M183>>>" ++ check (runes_of_ascii "root
-packet tag {
-@calculatedFrom(
-""{,}""
-    // `tick` ""quote"" 'q'
-    )
-@tag(
 //x
-// " ++ [27880; 37322]%N ++ runes_of_ascii "
-42
-    )
-    i64_ @lengthOf( calculatedFrom ) , zchar[// " ++ [128512]%N ++ runes_of_ascii " emoji
-3 // @lengthOf(
-] int  , } root// c
-packet Foo { }
-// @lengthOf(
-")).
-Eval vm_compute in ("<<<M1689>>>" ++ check (runes_of_ascii "packet
-    T {
-int
-
-u
+//x
+@tag( 0 ) falsey @lengthOf( BodyLength
+), @leftPad ( ) @calculatedFrom( ""1"" )
+@lengthOf(int ) match trueish
+as body // trailing space 
+{ [ 007
+, 7
 ,
-    @calculatedFrom(	""\" ++ [233]%N ++ runes_of_ascii """  ) // `tick` ""quote"" 'q'
-    repeat 	 // @lengthOf(
-string x_y_z  // a // b
-	  ,uint32	// `tick` ""quote"" 'q'
-  int
-    `crlf
-line`
+    ""abc"",
+""x y"" ,  00 , ""// no comment"" ,
+    255, 1
+]: body
+, } , @lengthOf( Pad ) metadata@calculatedFrom( ""it's"" )
+,
+    // `tick` ""quote"" 'q'
+    @leftPad() @calculatedFrom(	""" ++ [233]%N ++ runes_of_ascii "t" ++ [233]%N ++ runes_of_ascii """ ) char falsey `" ++ [233]%N ++ runes_of_ascii "`,char[
+007 ] metadata @lengthOf( chars) , @rightPad ( '0'
+) u8 // c
+roots@calculatedFrom( ""packet"" ) ,
+    string_ MetaDataX ,@lengthOf( Z9_ ) @leftPad ( '\x00' ) /// triple
+@rightPad
+    ( ' ' //
+) MetaDataX
+    `two words`  ,zchar[
+0
+    ]
+body// " ++ [27880; 37322]%N ++ runes_of_ascii "
+`line1
+line2` , } packet
+    // packet A { u8 x, }
+    uint8x {@rightPad  ( '0' )
+    //	t
+    char[]stringy,MetaDataX Z9_ , i8 Logon , } root packet
+    //	t
+    u // " ++ [128512]%N ++ runes_of_ascii " emoji
+{ int64 Z9_
+    , zchar[ 00 ]
+    string_
+    //
+    `" ++ [28040; 24687; 31867; 22411]%N ++ runes_of_ascii "` ,
+    @calculatedFrom(""a\""b""
+    )
+@tag( 3  ) @rightPad (
+'0' ) repeat u32 packetx `two words` , char[42
+] string_ , repeat Header lengthOf ,
+}
+options // packet A { u8 x, }
+{	} packet Header
+// " ++ [128512]%N ++ runes_of_ascii " emoji
+// packet A { u8 x, }
+{ @rightPad
+(//x
+)metadata { char[ 65535// c
+]o, repeat x
+// c
+/// triple
+{char[
+4294967296 ]  options1 , }
+// c
+// a // b
+,
+roots Header, } , }
+")).
+Eval vm_compute in ("<<<M43>>>" ++ check (runes_of_ascii "packet asx {
+    leftPad@calculatedFrom( """ ++ [233]%N ++ runes_of_ascii "t" ++ [233]%N ++ runes_of_ascii """ ) , @leftPad
+(  '0')
+    // trailing space 
+    u8x As `crlf
+line` ,char[ 3 ] asx @calculatedFrom( ""{,}"" )  ,
+// @lengthOf(
+// trailing space 
+repeat u128  { int {packetx @calculatedFrom( ""packet"" )
+    ,	match
+T as  T
+{ ""a	b""
+: o , } , zchar[ 00
+    ]lengthOf
+`{ , }` ,
+/// triple
+// trailing space 
+char[] crc @calculatedFrom( ""abc"" )
+, } , Header	@calculatedFrom( """ ++ [233]%N ++ runes_of_ascii "t" ++ [233]%N ++ runes_of_ascii """ )
+`two words` ,
+repeat uint8 uint8x , repeat
+    //
+    char[0123456789 ]float`u8 x,`,} ,
+packetx x `say ""hi""` , @rightPad ( )
+i8i8
+    @calculatedFrom( ""x y""), @leftPad
+    ( ) BodyLength {repeat	int32
+_x ``  , i8 msg_type
+`doc` //
+, }, }
+// `tick` ""quote"" 'q'
+// packet A { u8 x, }
+packet body { }	packet	repeatCount{zchar[  3 ] Packet, @lengthOf( // @lengthOf(
+Header  )
+    i64
+// c
+// c
+Packet `two words` ,
+zchar[ 65535
+]calculatedFrom `tab	here`//	t
+, match x as leftPad
+    { ""// no comment"": rootA
+    , ""`tick`"" :
+o,
+}
+,// " ++ [128512]%N ++ runes_of_ascii " emoji
+zchar[ //	t
+3 ]
+// packet A { u8 x, }
+// " ++ [27880; 37322]%N ++ runes_of_ascii "
+u128 @calculatedFrom( ""{,}"" ) `{ , }`
+    ,
+}
+    //	t
+    options { u = char[ 42 ] // " ++ [27880; 37322]%N ++ runes_of_ascii "
+metadata
+=""a\\""
+;  Logon =
+string ; Z9_ = u16
+;  }
+")).
+Eval vm_compute in ("<<<M129>>>" ++ check (runes_of_ascii "packet
+MetaDataX { metadata trueish`" ++ [233]%N ++ runes_of_ascii "`
+//x
+//x
+,// trailing space 
+@calculatedFrom(""`tick`"" )uint8x
+    // c
+    @calculatedFrom(  """ ++ [128512]%N ++ runes_of_ascii """  ) `{ , }`
+    , @calculatedFrom( ""a\""b"" ) // packet A { u8 x, }
+match Packet as
+    body { 3
+    : repeatCount
+,""x y""
+    /// triple
+    :lengthOf// `tick` ""quote"" 'q'
+4294967296 :
+    packetx
+    , [ ""abc""
+, ""// no comment""
+    ,
+""abc"" ,
+""\n"" //	t
+, ""1""
+]: u128 [ 00 , 65535 ,""x y"" ,""{,}""  ]
+: calculatedFrom ,
+    7 :	i8i8  }, u8x ,match int as	matchKey{
+[1 ,""CRC32""]
+    // trailing space 
+    :// @lengthOf(
+asx,	}
+    , @lengthOf( // " ++ [128512]%N ++ runes_of_ascii " emoji
+a1) string x `it's` , repeat // @lengthOf(
+char matchKey  ,
+    // a // b
+    @leftPad // trailing space 
+( )@rightPad ( ) match
+metadata	as  Packet { [ 65535  ] : Header , }, @tag( 255)
+zchar[ 3 ] crc `u8 x,` ,} MetaData
+    rootA // trailing space 
+{
+i8i8	Pad , int8
+packetx `{ , }`
+,
+    int8 stringy,
+    // `tick` ""quote"" 'q'
+    body _x  , body o , }")).
+Eval vm_compute in ("<<<M221>>>" ++ check (runes_of_ascii "packet u128
+{ @rightPad (
+' ' )
+i64_ { Logon ,char[ 4294967296
+    // @lengthOf(
+    ] MetaDataX@calculatedFrom( """ ++ [28040; 24687]%N ++ runes_of_ascii """ ) , } // " ++ [27880; 37322]%N ++ runes_of_ascii "
+,	rootA{ zchar[
+    // " ++ [128512]%N ++ runes_of_ascii " emoji
+    1 // a // b
+]rootA ,
+asx { rootA @calculatedFrom( ""abc""  ), repeat uint16 x_y_z
+,
+    // packet A { u8 x, }
+    zchar[
+42
+    ] stringy ,body , }, }, @leftPad
+( '\x00' ) char[ 3]Z9_ @lengthOf(  roots )
+    // trailing space 
+    `" ++ [233]%N ++ runes_of_ascii "`	, @lengthOf( charz	) @leftPad ( '0')@calculatedFrom(  ""a\""b"" )
+    zchar[//	t
+7 ]
+    // @lengthOf(
+    a1 @calculatedFrom( ""\" ++ [233]%N ++ runes_of_ascii """
+) //
+`// not a comment` ,
+@lengthOf( lengthOf ) repeat
+i16
+chars
+,int
+{
+    //	t
+    zchar[
+    1 ] calculatedFrom`line1
+line2`,Packet `" ++ [28040; 24687; 31867; 22411]%N ++ runes_of_ascii "` , } ,// " ++ [128512]%N ++ runes_of_ascii " emoji
+@rightPad ( '\x00'  )
+    zchar[255 // `tick` ""quote"" 'q'
+]
+    repeatCount @calculatedFrom(""\" ++ [233]%N ++ runes_of_ascii """ ) , repeat
+    char[] Pad
+`a\` ,  @lengthOf( pack )	i8 int , }")).
+Eval vm_compute in ("<<<M1495>>>" ++ check (runes_of_ascii "
+options  { StringPrefixLenType
+
+    =u8 ;	ArrayPrefixLenType  = u32
+    ;
+FixedStringPadFromLeft = true ;	FixedStringPadChar
+=
+' ' ;
+
+} packet Leg 
+{ 
+} packet 
+Heartbeat	{
+zchar[  6]
+msgKind , @rightPad ( 
+'0'
+
+    )
+
+    char[ 
+3
+
+]  Qty 
+,
+
+zchar[ 9]
+Side2  ,
+
+    i8 Acct
+,  }
+    packet  Logout
+    {
+int8
+x	, }packet
+
+    Order
+
+{ char[] Acct 
+,
+    zchar[
+
+    8
+]	count
+
+,
+u32 OrderId
+,
+
+    uint8	lastPx
+
+    ,
+	u16 clOrdID 
 , 
+zchar[
+7
+    ]
+Note ,
+	}
+
+    root packet
+
+Reject{
+@leftPad
+(
+    ' ' )char[
+8
+] Side2  ,
+i8
+clOrdID
+, repeat
+
+    f32
+
+    x, u32
+	lastPx,
+match	lastPx
+
+as
+	Body
+
+    {
+[  30
+    ,  147
+
+] :
+	Heartbeat,
+
+134 :Leg
+
+,183 
+: Logout
+,
+
+40	:
+    Order
+	,
+	}
+,u16
+Ref @calculatedFrom(
+
+""CR\
+C32""  )
+    ,
+}")).
+Eval vm_compute in ("<<<M201>>>" ++ check (runes_of_ascii "packet charz
+{ //	t
+repeat i64_ ,trueish {
+repeat _x
+    ,	repeatCount, repeat u16
+matchKey `
+`
+,
+// " ++ [128512]%N ++ runes_of_ascii " emoji
+// a // b
+matchKey @calculatedFrom( ""a\""b"" )
+`it's` ,}	,
+@tag(
+007 )@calculatedFrom(
+    ""a\\"")	@tag(
+    3 // @lengthOf(
+)f32 f32a @lengthOf(asx ) `crlf
+line` // packet A { u8 x, }
+, repeat i8 string_
+,
+    @lengthOf(
+    // @lengthOf(
+    Logon  ) @lengthOf( x_y_z )
+    @lengthOf(
+zchar
+    ) repeat char[ 65535	] Foo`" ++ [233]%N ++ runes_of_ascii "`,
+@calculatedFrom(//
+""abc""
+) trueish @lengthOf( A )
+// " ++ [27880; 37322]%N ++ runes_of_ascii "
+// a // b
+,char[ 0 ] float , Packet
+    @calculatedFrom( ""a	b""
+), } MetaData
+    Pad { char[ 00 ] leftPad , u8 rootA `
+`,
+//
+// " ++ [128512]%N ++ runes_of_ascii " emoji
+int32
+    a1	`say ""hi""`
+    ,
+Z9_ float , //x
+i32 Pad ,
+}")).
+Eval vm_compute in ("<<<M147>>>" ++ check (runes_of_ascii "root
+    packet falsey{	@tag( 255) len@calculatedFrom( ""`tick`""
+    )//
+,match MetaDataX as
+crc
+{	[7 ] :
+    roots ,} ,	@tag( 10 ) @tag(
+// `tick` ""quote"" 'q'
+// `tick` ""quote"" 'q'
+10//
+) @tag( 255)	repeat /// triple
+uint64 rootA	, tag // a // b
+`" ++ [28040; 24687; 31867; 22411]%N ++ runes_of_ascii "` ,
+float32  i64_ , int64 _x  `doc` , @leftPad( ' '
+    )
+match
+// @lengthOf(
+// @lengthOf(
+i8i8 as pack { // `tick` ""quote"" 'q'
+7 : Logon , ""x y"" : lengthOf , } , // trailing space 
+match x_y_z as u
+{
+// `tick` ""quote"" 'q'
+// " ++ [27880; 37322]%N ++ runes_of_ascii "
+[ 0123456789 ] :	packetx ,007 :x_y_z
+// trailing space 
+//
+, 10 : rootA , 7 : u 0123456789 :falsey
+, }	, // packet A { u8 x, }
 }
 ")).
-Eval vm_compute in ("<<<M1935>>>" ++ check (runes_of_ascii "// top
-options {
-    f32a = 0
-}// c5
+Eval vm_compute in ("<<<M1116>>>" ++ check (runes_of_ascii "// top
+MetaData // c0
+Packet // c1
+{ // c2
+} // c3
+packet // c4
+charz // c5
+{ // c6
+Foo // c7
+asx // c8
+`it's` // c9
+, // c10
+@lengthOf( // c11
+T // c12
+) // c13
+@calculatedFrom( // c14
+"""" // c15
+) // c16
+@calculatedFrom( // c17
+""x y"" // c18
+) // c19
+zchar[ // c20
+007 // c21
+] // c22
+repeatCount // c23
+@lengthOf( // c24
+int // c25
+) // c26
+`a\` // c27
+, // c28
+i8 // c29
+string_ // c30
+, // c31
+repeat // c32
+options1 // c33
+Pad // c34
+, // c35
+} // c36
+root // c37
+packet // c38
+Packet // c39
+{ // c40
+int8 // c41
+float // c42
+`doc` // c43
+, // c44
+} // c45
+")).
+Eval vm_compute in ("<<<M1846>>>" ++ check (runes_of_ascii "//x
+root packet float {
+    options1 A,
+    @tag(42)
+    u8x {
+        tag @calculatedFrom(""\" ++ [233]%N ++ runes_of_ascii """) `tab	here`,
+    },
+    int16 asx,
+    @lengthOf(o)
+    @rightPad()
+    repeat int Logon,
+    @calculatedFrom(""// no comment"")
+    @leftPad('\x00')
+    @rightPad('0')
+    zchar[65535] o `
+    `,
+    repeat As {
+        //x
+        repeat uint16 o,
+        repeat char[1] o,
+        u128 metadata,
+        repeat char[7] Header,
+    },
+    @tag(0123456789)
+    a1 tag,
+    float32 asx,
+    repeat len ``,
+}")).
+Eval vm_compute in ("<<<M253>>>" ++ check (runes_of_ascii "packet
+u	{ @lengthOf( //
+zchar )match Header as len  {
+    42// trailing space 
+:
+    x_y_z ,
+    // " ++ [27880; 37322]%N ++ runes_of_ascii "
+    },rootA	`
+`	,	match u8x as pack {[ 1 , """" ]
+    : float , ""abc""  :
+string_ ,42 :
+    i64_/// triple
+,
+1:zchar
+// trailing space 
+// " ++ [128512]%N ++ runes_of_ascii " emoji
+} ,char[ 3 ] int ,
+match options1 as u128 { [ ""`tick`"" ] : u
+// packet A { u8 x, }
+/// triple
+, } ,	}
+options {	len	= //	t
+i8 // " ++ [27880; 37322]%N ++ runes_of_ascii "
+; zchar = true; } packet T{char[ 42 ] asx@calculatedFrom(""CRC32"" ) , }
+")).
+Eval vm_compute in ("<<<M256>>>" ++ check (runes_of_ascii "
+options // " ++ [27880; 37322]%N ++ runes_of_ascii "
+{ T = zchar[ 42
+] options1 = uint8 ;
+lengthOf
+=
+    // a // b
+    char[4294967296
+    ]
+    ; } packet Z9_ { repeat
+MetaDataX
+`crlf
+line`
+    ,
+repeat string x_y_z	,
+    u32 x
+, // `tick` ""quote"" 'q'
+@tag(
+// " ++ [128512]%N ++ runes_of_ascii " emoji
+// " ++ [128512]%N ++ runes_of_ascii " emoji
+00 )repeat i64 Logon ,
+u8x
+f32a, repeat
+    lengthOf``, repeat
+stringy Pad
+    // @lengthOf(
+    `
+`,
+    repeat
+    string_ chars `// not a comment` , }
 
-packet trueish {
+")).
+Eval vm_compute in ("<<<M235>>>" ++ check (runes_of_ascii "packet crc
+// a // b
+//x
+{	u128
+    packetx , // " ++ [128512]%N ++ runes_of_ascii " emoji
+match roots	as
+    //
+    falsey
+{ 0123456789 // a // b
+: Header ""packet""// a // b
+: // a // b
+Z9_	3 : A ,
+// trailing space 
+// a // b
+""a	b""  : roots 10
+:  _x
+, } , @tag( 255// a // b
+) match
+calculatedFrom  as	o {
+    255 : string_ """ ++ [28040; 24687]%N ++ runes_of_ascii """ : i64_
+,	} , }MetaData
+T
+{ float64 u	,} packet Pad { /// triple
+}
+")).
+Eval vm_compute in ("<<<M1335>>>" ++ check (runes_of_ascii "options {
+    LittleEndian = true;
+    StringPrefixLenType = u16;
+    FixedStringPadChar = ' ';
+}
+packet Logon {
+    @leftPad('0') char[10] tag7,
+}
+root packet Ack {
+    int32 Px,
+    uint16 count,
+    string Qty,
+    string OrderId,
+    string Flags,
+    u8 x,
+    match x as Body {
+        [58, 169] : Logon,
+    },
+}
+")).
+Eval vm_compute in ("<<<M182>>>" ++ check (runes_of_ascii "root packet int {match MetaDataX	as charz
+{ 255 :uint8x , 65535 : // @lengthOf(
+u128 ""\" ++ [233]%N ++ runes_of_ascii """
+:o,0123456789 : _x ""{,}"" :
+    matchKey
+// `tick` ""quote"" 'q'
+// `tick` ""quote"" 'q'
+[4294967296 ,"""" ,	10
+    ]: charz , }	, @lengthOf( roots
+) x @calculatedFrom( ""\n"" )
+    , i32
+    tag , }")).
+Eval vm_compute in ("<<<M1291>>>" ++ check (runes_of_ascii "// top
+root
+    // c0
+packet
+    // c1
+P // c2a
+  // c2b
+{ // c3
+u8 // c4
+s_u8 // c5a
+  // c5b
+, // c6
+repeat u8 // c8a
+  // c8b
+r_u8 // c9a
+  // c9b
+,
+    // c10
+u16 // c11a
+  // c11b
+b_len // c12a
+  // c12b
+, // c13a
+  // c13b
+} // c14a
+  // c14b
+")).
+Eval vm_compute in ("<<<M351>>>" ++ check (runes_of_ascii "MetaData leftPad// packet A { u8 x, }
+{ string u128 `say ""hi""` //
+, // c
+A packetx
+    //	t
+    , char[
+//
+// packet A { u8 x, }
+42
+]
+leftPad
+    `tab	here` // trailing space 
+,i16 crc ,
+string uint8x // a // b
+,
+}")).
+Eval vm_compute in ("<<<M1918>>>" ++ check (runes_of_ascii "
+options{
+falsey 
+    /// triple
+    =  false
+	;falsey
+
+    = 
+//
+  int16	// `tick` ""quote"" 'q'
+  ; 
+	// `tick` ""quote"" 'q'
+  A
+    = 
+	// trailing space 
+u32
+    ; trueish = 1  ;  }")).
+Eval vm_compute in ("<<<M1429>>>" ++ check (runes_of_ascii "// top
+options {
+    // c1
+    LittleEndian = true;
+    // c5
 }
 
-MetaData _x {
-    char[0123456789] zchar,
-    string crc,
-    char[1] options1,
-    uint8 repeatCount,
-}// c29")).
-Eval vm_compute in ("<<<M396>>>" ++ check (runes_of_ascii "packet uint8x uint8x
+// c6
+root packet P {
+    u16 a,// c13
+    u32 Sum @calculatedFrom(""CRC32""),
+    // c19
+}// c20a
+// c20b")).
+Eval vm_compute in ("<<<M392>>>" ++ check (runes_of_ascii "packet packet uint8x
 { match pack
     as msg_type	{
     0123456789 :	float
@@ -878,7 +682,7 @@ a1
     { } options {packetx
     = '\x00'	; u128= ""a	b""  ; }
 ")).
-Eval vm_compute in ("<<<M513>>>" ++ check (runes_of_ascii "packet uint8x
+Eval vm_compute in ("<<<M523>>>" ++ check (runes_of_ascii "packet uint8x
 { match pack
     as msg_type	{
     0123456789 :	float
@@ -887,7 +691,7 @@ Eval vm_compute in ("<<<M513>>>" ++ check (runes_of_ascii "packet uint8x
 } packet //	t
 a1
     { } options {packetx
-    = '\x00'	; float32= ""a	b""  ; }
+    = '\x00'	; u128= MetaData  ; }
 ")).
 Eval vm_compute in ("<<<M463>>>" ++ check (runes_of_ascii "packet uint8x
 { match pack
@@ -900,18 +704,18 @@ a1
     { } options {packetx
     = '\x00'	; u128= ""a	b""  ; }
 ")).
-Eval vm_compute in ("<<<M467>>>" ++ check (runes_of_ascii "packet uint8x
+Eval vm_compute in ("<<<M472>>>" ++ check (runes_of_ascii "packet uint8x
 { match pack
     as msg_type	{
     0123456789 :	float
 }
 ,
 } packet //	t
-{
-    a1 } options {packetx
+a1
+    } { options {packetx
     = '\x00'	; u128= ""a	b""  ; }
 ")).
-Eval vm_compute in ("<<<M515>>>" ++ check (runes_of_ascii "packet uint8x
+Eval vm_compute in ("<<<M525>>>" ++ check (runes_of_ascii "packet uint8x
 { match pack
     as msg_type	{
     0123456789 :	float
@@ -920,10 +724,10 @@ Eval vm_compute in ("<<<M515>>>" ++ check (runes_of_ascii "packet uint8x
 } packet //	t
 a1
     { } options {packetx
-    = '\x00'	; u128 ""a	b""  ; }
+    = '\x00'	; u128= ""a	b""   }
 ")).
-Eval vm_compute in ("<<<M398>>>" ++ check (runes_of_ascii "packet [
-{ match pack
+Eval vm_compute in ("<<<M405>>>" ++ check (runes_of_ascii "packet uint8x
+{  pack
     as msg_type	{
     0123456789 :	float
 }
@@ -933,11 +737,17 @@ a1
     { } options {packetx
     = '\x00'	; u128= ""a	b""  ; }
 ")).
-Eval vm_compute in ("<<<M120>>>" ++ check (runes_of_ascii "packet float {@calculatedFrom(
-// " ++ [128512]%N ++ runes_of_ascii " emoji
-// packet A { u8 x, }
-""CRC32"" )Foo `" ++ [28040; 24687; 31867; 22411]%N ++ runes_of_ascii "`	,@calculatedFrom( ""a\\"" )
-    zchar[ 0 ]	msg_type `doc` , }")).
+Eval vm_compute in ("<<<M480>>>" ++ check (runes_of_ascii "packet uint8x
+{ match pack
+    as msg_type	{
+    0123456789 :	float
+}
+,
+} packet //	t
+a1
+    { }  {packetx
+    = '\x00'	; u128= ""a	b""  ; }
+")).
 Eval vm_compute in ("<<<M71>>>" ++ check (runes_of_ascii "root packet MetaDataX
 {repeat u8x len `" ++ [28040; 24687; 31867; 22411]%N ++ runes_of_ascii "`,
 As { u8x
@@ -946,205 +756,213 @@ As { u8x
 // @lengthOf(
 // trailing space 
 `a\` , }")).
-Eval vm_compute in ("<<<M1522>>>" ++ check (runes_of_ascii "  packet A	{
-match k	as
-n
-	{	[
-	1 
-, 
-22  , 
-007
-,
-
-    4, 5
-    ,
-
-    66 ,
-	7  ,  8,	9
-
-    ,
-10 ]
-: 
-B,	2 :C
-
-    }
-
-, 
-}
-")).
-Eval vm_compute in ("<<<M1731>>>" ++ check (runes_of_ascii "MetaData leftPad {
+Eval vm_compute in ("<<<M649>>>" ++ check (runes_of_ascii "// @lengthOf(
+packet i8i8 { u128 o , }
+options {  = true;
+    BodyLength =""packet"" x_y_z= 007
+crc //x
+= ""abc"" ;
+    msg_type =
+i16 }")).
+Eval vm_compute in ("<<<M1538>>>" ++ check (runes_of_ascii "MetaData leftPad {
     chars MetaDataX,
 }
 
-// c
 packet repeatCount {
     char[255] uint8x `" ++ [233]%N ++ runes_of_ascii "`,
 }
 
 MetaData pack {
     As Foo,
-}")).
-Eval vm_compute in ("<<<M1143>>>" ++ check (runes_of_ascii "MetaData // c
-leftPad { chars MetaDataX , } packet repeatCount { char[ 255 ] uint8x `" ++ [233]%N ++ runes_of_ascii "` , } MetaData pack { As Foo , }")).
-Eval vm_compute in ("<<<M1175>>>" ++ check (runes_of_ascii "MetaData leftPad { chars MetaDataX , } packet repeatCount { char[ 255 ] uint8x `" ++ [233]%N ++ runes_of_ascii "` , } // c
-MetaData pack { As Foo , }")).
-Eval vm_compute in ("<<<M346>>>" ++ check (runes_of_ascii "MetaData chars {
-x_y_z
-/// triple
-/// triple
-x
-    `line1
-line2` ,_x A`// not a comment`,	} // `tick` ""quote"" 'q'")).
-Eval vm_compute in ("<<<M911>>>" ++ check (runes_of_ascii "packet A {
-  match k as n {
-    [""a"", 22, ""c c"", 4, ""e"", 66, ""g"", 8, ""i"", 10, ""k"", 12] : B
-    2 : C
-  },
-}")).
-Eval vm_compute in ("<<<M1915>>>" ++ check (runes_of_ascii "  packet
-    A{match k 
-as
-n
+}
+// c")).
+Eval vm_compute in ("<<<M1779>>>" ++ check (runes_of_ascii "//
+packet
+metadata	{ 
+} 
+MetaData
 
-    { 
-[ ""a""
-	, ""bb"", 007,
-    ""d""]
-	:
+    chars
+	    //x
+	//	t
+	{
+char[42
+    ]
 
-    B
-
-,
-	2 : C
+leftPad `crlf
+line`
+    ,
 
     }
-,}
 
 ")).
-Eval vm_compute in ("<<<M620>>>" ++ check (runes_of_ascii "
-packet
-    asx {match u128 as lengthOf
-{
-//	t
-// `tick` ""quote"" 'q'
-255 : x ,
-    } @lengthOf(	}")).
-Eval vm_compute in ("<<<M862>>>" ++ check (runes_of_ascii "packet A {
-  match k as n {
-    [""a"", ""bb"", 007, ""d"", ""e"", 66, ""g"", ""h""] : B,
-    2 : C
-  },
-}")).
-Eval vm_compute in ("<<<M598>>>" ++ check (runes_of_ascii "
-packet
-    asx {match u128 as lengthOf
-{
-//	t
-// `tick` ""quote"" 'q'
-255 : : x ,
-    } ,	}")).
-Eval vm_compute in ("<<<M579>>>" ++ check (runes_of_ascii "
-packet
-    asx {match u128 lengthOf as
-{
-//	t
-// `tick` ""quote"" 'q'
-255 : x ,
-    } ,	}")).
-Eval vm_compute in ("<<<M595>>>" ++ check (runes_of_ascii "
-packet
-    asx {match u128 as lengthOf
-{
-//	t
-// `tick` ""quote"" 'q'
-: : x ,
-    } ,	}")).
-Eval vm_compute in ("<<<M836>>>" ++ check (runes_of_ascii "packet A {
-  match k as n {
-    [""a"", ""bb"", 007, ""d"", ""e"", 66] : B,
-    2 : C
-  },
-}")).
-Eval vm_compute in ("<<<M1292>>>" ++ check (runes_of_ascii "
-
-  root
-    packet
-
-P
-
-    {
-	u8
-	s_u8,  repeat  u8 r_u8  , u16
-    b_len, }
-
-")).
-Eval vm_compute in ("<<<M743>>>" ++ check (runes_of_ascii "int16 zchar[ } `doc` char u16 uint16 true false u8 msg_type """ ++ [233]%N ++ runes_of_ascii "t" ++ [233]%N ++ runes_of_ascii """ ""a\\"" pack")).
-Eval vm_compute in ("<<<M890>>>" ++ check (runes_of_ascii "packet A { Inner { match k as n { [1,22,007,4,5,66,7,8,9,10] : B, }, }, }")).
-Eval vm_compute in ("<<<M800>>>" ++ check (runes_of_ascii "packet A {
-  match k as n {
-    [1, 22, 007, 4] : B,
-    2 : C
-  },
-}")).
-Eval vm_compute in ("<<<M167>>>" ++ check (runes_of_ascii "packet msg_type { repeat// " ++ [27880; 37322]%N ++ runes_of_ascii "
-zchar[  007] Logon `two words`, }
-")).
-Eval vm_compute in ("<<<M439>>>" ++ check (runes_of_ascii "packet uint8x
-{ match pack
-    as msg_type	{
-    0123456789")).
-Eval vm_compute in ("<<<M1560>>>" ++ check (runes_of_ascii "
-root packet P
-{
-hdr {
-
-    u8
-
-a  , } , 
-u8 x ,
-	}")).
-Eval vm_compute in ("<<<M1209>>>" ++ check (runes_of_ascii "packet body { i32 f32a `{ , }` // c
-, } options { }")).
-Eval vm_compute in ("<<<M693>>>" ++ check (runes_of_ascii "// @lengthOf(
-packet i8i8 { u128 o , }
-options")).
-Eval vm_compute in ("<<<M337>>>" ++ check (runes_of_ascii "//	t
-options
-// c
-// " ++ [128512]%N ++ runes_of_ascii " emoji
-{
-    } // c")).
-Eval vm_compute in ("<<<M708>>>" ++ check (runes_of_ascii "// @lengthOf(
-packet i8i8 { u128 o ,")).
-Eval vm_compute in ("<<<M1284>>>" ++ check (runes_of_ascii "root packet P {
-    string s,
-}
-")).
-Eval vm_compute in ("<<<M1038>>>" ++ check (runes_of_ascii "packet A {
- u8 x `d" ++ [12]%N ++ runes_of_ascii "`, // c" ++ [12]%N ++ runes_of_ascii "
-}")).
-Eval vm_compute in ("<<<M713>>>" ++ check (runes_of_ascii "// @lengthOf(
-packet i8i8")).
-Eval vm_compute in ("<<<M1791>>>" ++ check (runes_of_ascii "
+Eval vm_compute in ("<<<M1163>>>" ++ check (runes_of_ascii "MetaData leftPad { chars MetaDataX , } packet repeatCount { char[ // c
+255 ] uint8x `" ++ [233]%N ++ runes_of_ascii "` , } MetaData pack { As Foo , }")).
+Eval vm_compute in ("<<<M218>>>" ++ check (runes_of_ascii "
 MetaData
-i64_
-
-{
-	}
-
+uint8x { char[ 007
+    ]leftPad ,Pad
+T ,u64 BodyLength , char[] int  ,float
+Z9_ , float32 metadata
+    , }
 ")).
-Eval vm_compute in ("<<<M170>>>" ++ check (runes_of_ascii "packet pack
-{
-} 	 ")).
-Eval vm_compute in ("<<<M1006>>>" ++ check (runes_of_ascii "packet A {
+Eval vm_compute in ("<<<M315>>>" ++ check (runes_of_ascii "packet Foo{ tag roots ,
+    // `tick` ""quote"" 'q'
+    i64_, @calculatedFrom( ""packet"" ) uint32 MetaDataX
+, }
+")).
+Eval vm_compute in ("<<<M1276>>>" ++ check (runes_of_ascii "options {
+    LittleEndian = true;
 }
-// c" ++ [8202]%N)).
-Eval vm_compute in ("<<<M571>>>" ++ check (runes_of_ascii "
-packet
-    asx {")).
-Eval vm_compute in ("<<<M1663>>>" ++ check (runes_of_ascii "packet A {
-}// c")).
-Eval vm_compute in ("<<<M750>>>" ++ check (runes_of_ascii "uk%W,3^r>l")).
-Eval vm_compute in ("<<<M293>>>" ++ check (runes_of_ascii "  
-
+root packet P {
+    u16 a,
+    u32 Sum @calculatedFrom(""CRC32""),
+}
 ")).
+Eval vm_compute in ("<<<M1614>>>" ++ check (runes_of_ascii "MetaData chars {
+    x_y_z x `line1
+    line2`,
+    _x A `// not a comment`,
+}// `tick` ""quote"" 'q'")).
+Eval vm_compute in ("<<<M568>>>" ++ check (runes_of_ascii "
+packet
+    asx {match match u128 as lengthOf
+{
+//	t
+// `tick` ""quote"" 'q'
+255 : x ,
+    } ,	}")).
+Eval vm_compute in ("<<<M1858>>>" ++ check (runes_of_ascii "packet u {
+    repeat A,
+    @lengthOf(lengthOf)
+    repeat i64 i64_,//
+    zchar[3] body,
+}")).
+Eval vm_compute in ("<<<M1540>>>" ++ check (runes_of_ascii "
+packet
+	A {
+
+    Inner {match
+    k
+
+as
+
+    n {
+
+[	1  ]
+    : 
+B ,
+    } ,
+}
+, }
+")).
+Eval vm_compute in ("<<<M622>>>" ++ check (runes_of_ascii "
+packet
+    asx {match u128 as lengthOf
+{
+//	t
+// `tick` ""quote"" 'q'
+255 : x ,
+    } ,	")).
+Eval vm_compute in ("<<<M1401>>>" ++ check (runes_of_ascii "packet A {
+    match k as n {
+        1 : B,
+        // a// b
+        2 : C,
+    },
+}")).
+Eval vm_compute in ("<<<M833>>>" ++ check (runes_of_ascii "packet A {
+  match k as n {
+    [""a"", 22, ""c c"", 4, ""e"", 66] : B
+    2 : C
+  },
+}")).
+Eval vm_compute in ("<<<M802>>>" ++ check (runes_of_ascii "packet A {
+  match k as n {
+    [""a"", ""bb"", ""c c"", ""d""] : B,
+    2 : C
+  },
+}")).
+Eval vm_compute in ("<<<M91>>>" ++ check (runes_of_ascii "packet
+roots{ }	MetaData
+    metadata{
+asx matchKey ,
+uint64
+rootA , }")).
+Eval vm_compute in ("<<<M1409>>>" ++ check (runes_of_ascii "packet metadata {
+    u32 Packet `say ""hi""`,
+    // trailing space 
+}")).
+Eval vm_compute in ("<<<M1101>>>" ++ check (runes_of_ascii "// top
+MetaData
+    // c0
+tag
+    // c1
+{
+    // c2
+}
+    // c3
+")).
+Eval vm_compute in ("<<<M775>>>" ++ check (runes_of_ascii "packet A {
+  match k as n {
+    [""a""] : B,
+    2 : C
+  },
+}")).
+Eval vm_compute in ("<<<M1679>>>" ++ check (runes_of_ascii "MetaData
+
+M
+	{ u8
+
+    x `tab
+	x`	,
+
+T  t`tab
+	x` , }")).
+Eval vm_compute in ("<<<M1208>>>" ++ check (runes_of_ascii "packet body { i32 f32a
+// c
+`{ , }` , } options { }")).
+Eval vm_compute in ("<<<M1243>>>" ++ check (runes_of_ascii "root packet P {
+    repeat char cs,
+    u8 x,
+}
+")).
+Eval vm_compute in ("<<<M429>>>" ++ check (runes_of_ascii "packet uint8x
+{ match pack
+    as msg_type")).
+Eval vm_compute in ("<<<M971>>>" ++ check (runes_of_ascii "options {
+    a = ""\
+"";
+    b = ""\
+""
+}")).
+Eval vm_compute in ("<<<M1958>>>" ++ check (runes_of_ascii "packet A {
+    u8 x `
+        `,
+}")).
+Eval vm_compute in ("<<<M276>>>" ++ check (runes_of_ascii "MetaData repeatCount { }
+//	t
+")).
+Eval vm_compute in ("<<<M270>>>" ++ check (runes_of_ascii "  root packet msg_type
+{
+}
+")).
+Eval vm_compute in ("<<<M1930>>>" ++ check (runes_of_ascii "packet A {
+}// a// b// c")).
+Eval vm_compute in ("<<<M1510>>>" ++ check (runes_of_ascii "packet x {
+    // c
+}")).
+Eval vm_compute in ("<<<M95>>>" ++ check (runes_of_ascii "
+packet  Logon {}
+")).
+Eval vm_compute in ("<<<M1046>>>" ++ check (runes_of_ascii "packet A {
+}
+// c" ++ [8203]%N)).
+Eval vm_compute in ("<<<M1049>>>" ++ check (runes_of_ascii "packet A {
+}// c" ++ [65279]%N)).
+Eval vm_compute in ("<<<M626>>>" ++ check (runes_of_ascii "
+packet
+    as")).
+Eval vm_compute in ("<<<M1891>>>" ++ check (runes_of_ascii "
+// c" ++ [11]%N)).
+Eval vm_compute in ("<<<M86>>>" ++ check (runes_of_ascii "  ")).
